@@ -1,4 +1,5 @@
 //! One xorshift64* state per run; every random choice derives from it.
+#[derive(Clone)]
 pub struct Rng(pub u64);
 
 impl Rng {
